@@ -124,6 +124,24 @@ def parse_blocks(text):
     return blocks
 
 
+def block_lines(text):
+    """the lines of the first balance-shaped block after its title and underline, exactly as written
+    (rows, the '=' ruler, delta lines)"""
+    lines = text.split("\n")
+    i = 0
+    while i + 1 < len(lines):
+        ln, nx = lines[i], lines[i + 1]
+        if ln and not ln.startswith(" ") and nx and set(nx) == {"-"}:
+            out = []
+            j = i + 2
+            while j < len(lines) and (lines[j].startswith("=") or (lines[j].startswith(" ") and lines[j].strip())):
+                out.append(lines[j])
+                j += 1
+            return out
+        i += 1
+    return []
+
+
 def parse_register(text):
     """-> list of entries, each a list of (acct, amount, total, comm) (no price conversion)"""
     lines = text.split("\n")
@@ -829,6 +847,14 @@ class C17(PropBase):
             return "number of balance rows differs: impl=%d model=%d" % (len(irows), len(mo["v"]["rows"]))
         if ideltas != mo["v"]["deltas"]:
             return "balance deltas differ: impl=%s model=%s" % (ideltas, mo["v"]["deltas"])
+        mlines = mo["v"].get("lines")
+        if mlines is not None:                   # column layout, character for character (Model/BalanceLayout)
+            ilines = block_lines(txt)
+            if ilines != mlines:
+                for a, b in zip(ilines, mlines):
+                    if a != b:
+                        return "balance line layout differs: impl=%r model=%r" % (a, b)
+                return "number of balance lines differs: impl=%d model=%d" % (len(ilines), len(mlines))
         return None
 
     def compare_register(self, case, impl, model):
